@@ -11,7 +11,7 @@ import (
 // the same time (each has completed its Read before either Write happens) - the interleaving in which state
 // shared between the two directions would show - then a second chunk follows, then the client closes.
 //
-//verif:props=C16,C05 replay=model unwind=12 bounds="valid ConnectionBind by the owner on a stream; chunks of 1..4 (quick) / 1..8 (thorough) arbitrary bytes: one in each direction with both reads completed before either write, a second one client->peer; then the client's data connection ends"
+//verif:props=C16,C05,C18 replay=model unwind=12 bounds="valid ConnectionBind by the owner on a stream; chunks of 1..4 (quick) / 1..8 (thorough) arbitrary bytes: one in each direction with both reads completed before either write, a second one client->peer; then the client's data connection ends"
 func VerifHarness_C16_piping() {
 	s := vNewSrv(false, false)
 	c1 := allocation.VUDPAddr4()
